@@ -10,7 +10,10 @@ use crate::{
     metrics::MetricType, CacheCallback, CacheError, Coster, DefaultCacheCallback, DefaultCoster,
     DefaultKeyBuilder, DefaultUpdateValidator, KeyBuilder, Metrics, UpdateValidator,
 };
+#[cfg(not(transparencies_stretto_verif))]
 use async_io::Timer;
+#[cfg(transparencies_stretto_verif)]
+use stretto_sim_rt::timer::Timer;
 use futures::{
     future::{BoxFuture, FutureExt},
     stream::StreamExt,
